@@ -64,7 +64,7 @@ CONFIGS = [{"flat": f, "gzip": g, "compresslevel": lv}
 
 def gen_cases(tier, seed):
     rnd = random.Random(f"C12:{seed}")
-    n = 1500 if tier == "quick" else 12000
+    n = 1500 if tier == "quick" else 40000
     cases = []
     for k in range(n):
         kind = "file" if rnd.random() < 0.8 else "sharded"
